@@ -180,14 +180,27 @@ def run(repo: Repo, rep: Report, tier: str) -> None:
     n_scu = 0
     for fname in ("_wrap_find_responses", "_wrap_get_move_responses"):
         f = repo.func("association", f"Association.{fname}")
-        assigns = [s for s in walk_no_nested(f) if isinstance(s, ast.Assign) and norm(s.targets[0]) == "category"]
-        rep.need(assigns, f"association.Association.{fname}: 'category' variable vanished")
-        for a in assigns:
+        # the variable whose comparison with STATUS_PENDING decides 'another response follows'
+        pend_tests = [n for n in walk_no_nested(f) if isinstance(n, ast.Compare) and len(n.ops) == 1 and "STATUS_PENDING" in norm(n) and (isinstance(n.left, ast.Name) or isinstance(n.comparators[0], ast.Name))]
+        cat_names = {(n.left.id if isinstance(n.left, ast.Name) and n.left.id != "STATUS_PENDING" else n.comparators[0].id) for n in pend_tests if isinstance(n.left, ast.Name) or isinstance(n.comparators[0], ast.Name)} - {"STATUS_PENDING"}
+        rep.need(cat_names, f"association.Association.{fname}: no comparison of the response category with STATUS_PENDING")
+        assigns = []
+        for s_ in walk_no_nested(f):
+            if isinstance(s_, ast.Assign):
+                for t_ in s_.targets:
+                    if isinstance(t_, ast.Name) and t_.id in cat_names:
+                        assigns.append((s_, s_.value))
+                    elif isinstance(t_, (ast.Tuple, ast.List)):
+                        for k_, e_ in enumerate(t_.elts):
+                            if isinstance(e_, ast.Name) and e_.id in cat_names:
+                                v_ = s_.value.elts[k_] if isinstance(s_.value, (ast.Tuple, ast.List)) and len(s_.value.elts) == len(t_.elts) else s_.value
+                                assigns.append((s_, v_))
+        rep.need(assigns, f"association.Association.{fname}: the response category is never assigned")
+        for a, v in assigns:
             n_scu += 1
-            v = a.value
-            ok = isinstance(v, ast.Call) and dotted(v.func) == "code_to_category" and norm(v.args[0]).endswith("status.Status") or (isinstance(v, ast.Call) and dotted(v.func) == "code_to_category" and "status.Status" in norm(v.args[0]))
-            rep.check(bool(ok), "finality-source", f"association.Association.{fname}", a, "SCU response category must come from code_to_category(status.Status)", mod=assoc, node=a)
-        tests = [n for n in walk_no_nested(f) if isinstance(n, ast.Compare) and isinstance(n.left, ast.Name) and n.left.id == "category"]
+            ok = isinstance(v, ast.Call) and dotted(v.func) == "code_to_category" and v.args and "status.Status" in norm(v.args[0])
+            rep.check(bool(ok), "finality-source", f"association.Association.{fname}", a, "the SCU's response category must be code_to_category(status.Status), which classifies all 65536 codes: a lookup in a status table (with a default, or failing) knows only the listed codes - a Pending code outside the table (0xFF01) is then taken for a final response, a Failure / Warning outside it loses its category and its Failed SOP Instance UID List", mod=assoc, node=a)
+        tests = pend_tests
         pend = [t for t in tests if "STATUS_PENDING" in norm(t)]
         rep.check(len(pend) >= 1, "finality-source", f"association.Association.{fname}", "category == STATUS_PENDING", "no Pending test on the response category", mod=assoc, node=f)
     sc = repo.mod("service_class")
@@ -221,6 +234,31 @@ def run(repo: Repo, rep: Report, tier: str) -> None:
                 ok = isinstance(v, ast.Name) and v.id in tables
                 rep.check(ok, "finality-source", f"{m.name.replace('pynetdicom.', '')}.{qualname(node)}", node, "service class status table is not one of the verified tables of status.py", mod=m, node=node)
     rep.floor("statuses bindings", n_cls, 20)
+    # the tables are constants: nothing adds to, removes from or rewrites them at run time (a lookup written with
+    # setdefault() inserts the default - from then on the table and code_to_category() disagree for that code, for
+    # every service class sharing the dict)
+    from .c27 import pkg_modules
+    n_mut = 0
+    for short, m in pkg_modules(repo):
+        for fn_ in [x for x in ast.walk(m.tree) if isinstance(x, (ast.FunctionDef, ast.Lambda))]:
+            for x in ast.walk(fn_):
+                tgt = None
+                if isinstance(x, ast.Call) and isinstance(x.func, ast.Attribute) and x.func.attr in ("setdefault", "update", "pop", "popitem", "clear", "__setitem__", "__delitem__"):
+                    tgt = x.func.value
+                elif isinstance(x, ast.Subscript) and isinstance(x.ctx, (ast.Store, ast.Del)):
+                    tgt = x.value
+                if tgt is None:
+                    continue
+                names_ = {norm(tgt)}
+                if isinstance(tgt, ast.Name):
+                    # a local alias of a table: `statuses = service_class.statuses`
+                    for a_ in ast.walk(fn_):
+                        if isinstance(a_, ast.Assign) and any(norm(t_) == tgt.id for t_ in a_.targets):
+                            names_.add(norm(a_.value))
+                if any(nm.split(".")[-1] == "statuses" or nm in tables or nm.split(".")[-1] in tables for nm in names_):
+                    n_mut += 1
+                    rep.fail("table-agreement", f"{short}.{qualname(x) or getattr(fn_, 'name', 'lambda')}", enclosing(x, (ast.stmt,)) or x, f"`{norm(x)[:60]}` changes a status table at run time: the tables are shared module-level dicts (several service classes point at the same object), so from the first such call on the table disagrees with code_to_category() / PS3.7 for that code in the whole process (is_valid_status() flips, an unknown status gets a category)", mod=m, node=x)
+    rep.counters["run-time writes to status tables"] = n_mut
     _delegate_finality(repo, rep, tier)
     _delegate_scp_finality(repo, rep, tier)
 
